@@ -724,12 +724,12 @@ def c08_families(rng, tier):
     rel += [l.replace("x ", "relabel 6 ", 1) for l in made_hands(rng, 6, 150, "x")] + [l.replace("x ", "relabel 7 ", 1) for l in made_hands(rng, 7, 150, "x")]
     return sweeps(rng, tier, lambda k: "relabel %d" % k, "1 1", "C08_relabel_invariant + C10_create + C10_accessors + C04_validated",
                   "value and validated value identical under all 24 relabellings of the four suits (cards rebuilt through the accessors "
-                  "and create)", sizes=(5, 6, 7), name="relabel", quick_strides={5: (1, 4, 4), 6: (8, 32, 32), 7: (64, 256, 256)},
+                  "and create)", sizes=(5, 6, 7), name="relabel", quick_strides={5: (1, 4, 4), 6: (16, 64, 64), 7: (128, 512, 512)},
                   thorough_stride={7: 4}) + [
         fam("relabel_projection", rel, "the projection the relabelling sweeps use, on model and implementation", pinned=True)] + \
         sweeps(rng, tier, lambda k: "shiftinv %d" % k, "1 1 1 1 1 1 1", "C08_shift_invariant + C08_cycle + C04_validated",
                   "value and validated value unchanged by one, two and three shifts; four shifts restore the hand",
-                  sizes=(5, 6, 7), name="shiftinv") + [
+                  sizes=(5, 6, 7), name="shiftinv", quick_strides={5: (1, 2, 2), 6: (2, 8, 8), 7: (16, 64, 64)}) + [
         fam("shift_card", ["shift %d" % w for w in DECK + [0]], "shift_suit on all 52 cards and blank", exhaustive=True, pinned=True),
         fam("shift_words", ["shift %d" % w for w in near_miss_words()], "shift_suit on near-miss words (beyond the property: ties the model's logic)", beyond=True),
         fam("shift_hands", hands, "shift_suit of Two..Seven over cards (and blanks) in random order: slot-wise", categories=cats, pinned=True),
